@@ -499,6 +499,22 @@ def expand(ctx, state, col):
             judge_allowed(ctx, info, state, allowed2, col, note)
         if verdict(target, allowed2, got2, note):
             out.append((target, (tuple(sorted(batch + (target,))), revealed)))
+    # every allowed plate carries the WORST score of all remaining plates (ties among them): the minimum over the
+    # allowed plates then equals the global maximum; the selection must still be an allowed plate
+    if legit and len(legit) < len(remaining):
+        sc = {n: (9.0 if n in legit else 1.0 + 0.5 * i) for i, n in enumerate(remaining)}
+        note = {"target": "any allowed plate; all of them tie at the worst score"}
+        allowed3, got3 = call(sc, note)
+        if allowed3 != "raised":
+            if allowed3 is None:
+                allowed3 = [] if got3 is None else [got3]
+            if got3 is None:
+                col.violation("C16|select|nothing-returned-though-allowed",
+                              f"k={k}: {allowed3} are allowed in batch {list(batch)} but select_next_plate returned nothing", _case(ctx, state, note))
+            elif got3 not in allowed3:
+                col.violation("C16|select|returned-plate-not-allowed",
+                              f"k={k}: select_next_plate returned {got3}, which the policy did not allow ({allowed3}) in batch {list(batch)} "
+                              f"(allowed plates all carry the worst score)", _case(ctx, state, note))
     if ctx.retro and batch and len(batch) % k == 0:
         new_rev = tuple(sorted(set(revealed) | set(batch)))
         ctx.info(new_rev, parent=revealed, newly=list(batch), col=col)
